@@ -60,7 +60,17 @@ func genC13(r *sim.Rng) *c13Case {
 	n := 1 + r.Intn(10)
 	// placement of failures: none / first / middle / last / several
 	place := r.Intn(5)
+	// a quarter of the cases repeat earlier commands verbatim, with the same device output (a
+	// command file that repeats a line, the same bad sub-command under several interfaces): two
+	// failed members may then be equal in every field and are still two members
+	dup := r.Chance(1, 4)
 	for i := 0; i < n; i++ {
+		if dup && i > 0 && r.Chance(1, 2) {
+			j := r.Intn(i)
+			c.Cmds = append(c.Cmds, c.Cmds[j])
+			c.Outs = append(c.Outs, c.Outs[j])
+			continue
+		}
 		c.Cmds = append(c.Cmds, fmt.Sprintf("show item%d", r.Intn(50)))
 		plant := false
 		switch place {
@@ -279,6 +289,28 @@ func runC13Case(id string, c *c13Case) {
 			if !bytes.Equal(sent[i], []byte(c.Cmds[i])) {
 				cs.Oracle = fmt.Sprintf("device line %d = %q, want %q", i, sent[i], c.Cmds[i])
 				cs.Sig = "C13:sent"
+			}
+		}
+	}
+	// "lists exactly those members": the aggregate's operations are the failed members' own errors,
+	// one per failed member, in order
+	var wantOps, gotOps []*response.OperationError
+	for _, r := range m.Responses {
+		if oe, ok := r.Failed.(*response.OperationError); ok && oe != nil {
+			wantOps = append(wantOps, oe)
+		}
+	}
+	if me, ok := m.Failed.(*response.MultiOperationError); ok && me != nil {
+		gotOps = me.Operations
+	}
+	if len(gotOps) != len(wantOps) {
+		cs.Oracle = fmt.Sprintf("%d members failed, but the multi response lists %d", len(wantOps), len(gotOps))
+		cs.Sig = "C13:multi-members"
+	} else {
+		for i := range wantOps {
+			if gotOps[i] != wantOps[i] {
+				cs.Oracle = fmt.Sprintf("listed operation %d (%q) is not failed member %d's error (%q)", i, gotOps[i].Input, i, wantOps[i].Input)
+				cs.Sig = "C13:multi-members"
 			}
 		}
 	}
